@@ -7,7 +7,8 @@ import vlib
 from vlib import glist
 
 PID = "C19"
-THEOREMS = ["C19_lerp_int_start", "C19_lerp_int_end", "C19_lerp_int_between", "C19_ease_endpoints", "C19_pinned_refuted"]
+THEOREMS = ["C19_lerp_int_start", "C19_lerp_int_end", "C19_lerp_int_between", "C19_ease_endpoints", "C19_ease_finite", "C19_ease_unit_interval",
+            "C19_ease_endpoints_exact", "C19_lerp_f32_finite", "C19_lerp_f32_start", "C19_lerp_f32_from_start", "C19_pinned_refuted"]
 
 TYPES = {"i8": (True, 8), "i16": (True, 16), "i32": (True, 32), "i64": (True, 64), "i128": (True, 128), "isize": (True, 64),
          "u8": (False, 8), "u16": (False, 16), "u32": (False, 32), "u64": (False, 64), "u128": (False, 128), "usize": (False, 64)}
